@@ -22,7 +22,10 @@ RULE = ('Clause 1: Hypothesis files (type 0/1/2, ticks_per_beat 1..32767, 0-4 tr
         '(flip, insert, delete, truncate, splice, length-field edits): whatever loads must satisfy '
         'load(save(load(b))) == canonical load(b) and save be idempotent, unless save refuses for a clause-2 reason. '
         'Non-trivial: clause 1 a track with >= 2 events incl. a running-status run, meta or sysex; clause 3 a mutant '
-        'that loads and whose re-saved bytes differ from it. Distinct by hash of the case.')
+        'that loads and whose re-saved bytes differ from it. Distinct by hash of the case.'
+        ' Later additions: MidiTrack conveniences (+, *, slices, copy) as construction route, save/load by'
+        ' (relative) file name over a stale longer file, files in another charset (constructor argument or'
+        ' assignment), track chunks > 1 MiB, volume files, saving leaves the in-memory file unchanged.')
 ASSUMPTIONS = ['smpte_offset hours are generated in 0..31 (KF-C09-c is recorded under C09)',
                'sequencer_specific data is given as a tuple (KF-C09-d is recorded under C09)',
                'a load that raises (any exception type) makes no claim']
